@@ -62,9 +62,9 @@ func ruleC32(c *Ctx) {
 			}
 		}
 		c.Require("readimpl", fname(rd)+": the kept remainder is the source minus exactly the copied count", okr && n >= 2, "%d remainder store(s) %s", n, d)
-		c.RequireGuard("guard", c.ScopeIf(rd, "buffer empty", 1, readsField("p2p/connection.SecretConnection", "recvBuffer"), callsKey("builtin:len")), "frame authenticated (secretbox.Open ok)", callsKey("golang.org/x/crypto/nacl/secretbox.Open"))
+		c.RequireGuard("guard", c.ScopeWhen(rd, "buffer empty", "call:builtin:len <= 0"), "frame authenticated (secretbox.Open ok)", callsKey("golang.org/x/crypto/nacl/secretbox.Open"))
 		// chunk length bounded
-		c.RequireGuard("guard", c.ScopeIf(rd, "buffer empty", 1, readsField("p2p/connection.SecretConnection", "recvBuffer"), callsKey("builtin:len")), "declared chunk length ≤ dataMaxSize", callsKey("(encoding/binary.bigEndian).Uint16"))
+		c.RequireGuard("guard", c.ScopeWhen(rd, "buffer empty", "call:builtin:len <= 0"), "declared chunk length ≤ dataMaxSize", callsKey("(encoding/binary.bigEndian).Uint16"))
 		// nonce pairing on the receive side
 		okn := false
 		for _, o := range callsTo(rd, false, "golang.org/x/crypto/nacl/secretbox.Open") {
